@@ -51,3 +51,7 @@ CLAIMS["C35"] = dict(level="exploration",
     technique="exhaustive single-bit/truncation mutation of tickets over a captured SessionState corpus x key sets, and exhaustive enumeration of key-rotation / clock histories against a reference key-validity model",
     text="Real SessionStates (TLS 1.2 with/without EMS, TLS 1.3, with/without client certificates, Extra variants) are sealed and opened under 1-3 keys (must serialise identically); every bit flip, truncation and extension of the ticket must yield no state; every bounded history of explicit rotations and of clock advances under auto-managed keys is compared with a reference model of which keys are still configured; TicketKeyFromBytes is compared with installed keys on all single-byte-set inputs.",
     note="Reference model of auto rotation derived from the documented 24h rotation / 7d lifetime; forged-session resumption is covered by C20.")
+CLAIMS["C31"] = dict(level="exploration",
+    technique="reflection-driven exhaustive enumeration of field patterns (zero, one-hot, empty-slice, all-set, pairs) through public->private->public conversions, plus byte round trips of the whole hello corpus",
+    text="Every field of every public view type is set alone (and empty, and with every other field in thorough) and converted to the internal form and back with deep comparison; every corpus ClientHello (all IDs, custom specs, variants with spliced-in empty/boundary extensions) must satisfy Unmarshal.Marshal == input and parse/clear-Raw/marshal/parse field equality.",
+    note="Fields without counterpart by design are listed in inpkg/roundtrip.go (cachedPrivateHello; deprecated CertificateRequestMsgTLS13.Raw; FinishedHash.Prf/Prfv2 wrapper closures).")
